@@ -141,6 +141,27 @@ type schedWorld struct {
 	invPriv crypto.PrivKey
 
 	firstSeal string // set if the first sealing of a freshly constructed token changed it
+
+	forged [][]byte // per sealed token: same signature, one payload byte changed (same length)
+	carAll []byte   // all sealed tokens in one CAR
+}
+
+// forgeSameLength rewrites one byte inside the nonce of a sealed token: canonical DAG-CBOR of
+// the same length, same issuer, same signature, other content (never signed).
+func forgeSameLength(sealed []byte) []byte {
+	env, err := openEnvelope(sealed)
+	if err != nil {
+		return nil
+	}
+	for i := 0; i+1 < len(env.payload.Kids); i += 2 {
+		k, v := env.payload.Kids[i], env.payload.Kids[i+1]
+		if string(k.Data) == "nonce" && v.Major == 2 && len(v.Data) > 0 {
+			out := append([]byte{}, sealed...)
+			out[v.End-1] ^= 0x01
+			return out
+		}
+	}
+	return nil
 }
 
 var schedFixedTime = time.Date(2020, 1, 2, 3, 4, 5, 0, time.UTC)
@@ -219,6 +240,16 @@ func buildSchedWorld(p *SchedPlan) (*schedWorld, error) {
 	w.invPriv = w.cast.ent(v.Iss).priv
 	w.sealed = append(w.sealed, b)
 	w.cids = append(w.cids, c)
+	for _, b := range w.sealed {
+		w.forged = append(w.forged, forgeSameLength(b))
+	}
+	wrAll := container.NewWriter()
+	for i, b := range w.sealed {
+		wrAll.AddSealed(w.cids[i], b)
+	}
+	if w.carAll, err = wrAll.ToCar(); err != nil {
+		return nil, err
+	}
 	raw, err := wr.ToCbor()
 	if err != nil {
 		return nil, err
@@ -533,6 +564,61 @@ func schedOp(w *schedWorld, name string) func() string {
 			}
 			return out
 		}
+	case "DecodeSealed", "DecodeForged", "DecodeTyped", "DecodeForgedTyped", "DecodeDagCbor", "DecodeForgedDagCbor":
+		// decoders running side by side on honest bytes and on a forgery carrying the same
+		// signature: whatever comes back must be what was signed
+		idx := len(w.sealed) - 1
+		if !isInv {
+			fmt.Sscanf(target, "dlg%d", &idx)
+			idx %= len(w.dlgs)
+		}
+		data := w.sealed[idx]
+		forged := strings.Contains(op, "Forged")
+		if forged {
+			if data = w.forged[idx]; data == nil {
+				return dash
+			}
+		}
+		var got token.Token
+		var err error
+		switch {
+		case strings.HasSuffix(op, "Typed"):
+			if isInv {
+				var t *invocation.Token
+				t, _, err = invocation.FromSealed(data)
+				if err == nil {
+					got = t
+				}
+			} else {
+				var t *delegation.Token
+				t, _, err = delegation.FromSealed(data)
+				if err == nil {
+					got = t
+				}
+			}
+		case strings.HasSuffix(op, "DagCbor"):
+			got, err = token.FromDagCbor(data)
+		default:
+			got, _, err = token.FromSealed(data)
+		}
+		honest := rawOf(tk)
+		var rec rawRec
+		if err == nil && !isNilTok(got) {
+			rec = rawOf(got)
+		}
+		return func() string {
+			if err != nil || rec.kind == "" {
+				return "rejected"
+			}
+			if rec.render().Content() != honest.render().Content() {
+				return "ACCEPTED-UNSIGNED-CONTENT " + diffRec(honest.render(), rec.render())
+			}
+			return "accepted-as-signed"
+		}
+	case "DecodeContainer":
+		rd, err := container.FromCar(w.carAll)
+		n := len(rd)
+		return func() string { return fmt.Sprintf("%s %d", errStr(err), n) }
 	case "PolicyMatchAlt":
 		// the same policy evaluated against OTHER data (lists and strings of another length):
 		// nothing learnt from one evaluation may leak into the next
@@ -668,7 +754,27 @@ func allSchedOps(p *SchedPlan) []string {
 	return out
 }
 
+// safely runs harness-side rendering or a whole operation; a panic becomes a result string
+// (a read-only operation that panics on a token another operation has been through is a
+// result that differs from the one it gives alone)
+func safely(f func() string) (out string) {
+	defer func() {
+		if r := recover(); r != nil {
+			out = fmt.Sprintf("PANIC: %v", r)
+		}
+	}()
+	return f()
+}
+
+func safeOp(w *schedWorld, name string) string {
+	return safely(func() string { return schedOp(w, name)() })
+}
+
 func (w *schedWorld) snapshot() string {
+	return safely(w.snapshotRaw)
+}
+
+func (w *schedWorld) snapshotRaw() string {
 	var s []string
 	for _, d := range w.dlgs {
 		s = append(s, recOf(d).Ordered())
@@ -750,7 +856,7 @@ func execSched(t *testing.T, pl Plan, seed uint64, o *Outcome) {
 	wg.Wait()
 	for g := range pending {
 		for _, f := range pending[g] {
-			results[g] = append(results[g], f())
+			results[g] = append(results[g], safely(f))
 		}
 	}
 	for g, pm := range panics {
@@ -764,6 +870,7 @@ func execSched(t *testing.T, pl Plan, seed uint64, o *Outcome) {
 	raceLogPos = pos
 	o.Eval("C20")
 	nRaces := 0
+	c06race := false
 	for _, rep := range strings.Split(newLog, "==================") {
 		if !strings.Contains(rep, "WARNING: DATA RACE") || !strings.Contains(rep, "github.com/ucan-wg/go-ucan/") {
 			continue
@@ -771,6 +878,12 @@ func execSched(t *testing.T, pl Plan, seed uint64, o *Outcome) {
 		nRaces++
 		if nRaces == 1 {
 			o.Violate("C20", "data-race", "race detector report with a go-ucan frame: "+raceSummary(rep), map[string]string{"frames": raceSummary(rep)})
+		}
+		if !c06race && strings.Contains(rep, "go-ucan/token/internal/envelope.") && (strings.Contains(rep, "envelope.FromIPLD") || strings.Contains(rep, "envelope.fromIPLD") || strings.Contains(rep, "envelope.FromDag") || strings.Contains(rep, ".FromSealed")) {
+			// two decoders running side by side conflict on state of the verifying path: which
+			// bytes a signature was checked over is then no longer defined
+			c06race = true
+			o.Violate("C06", "decoder-data-race", "decoders running side by side race inside the verifying path: "+raceSummary(rep), map[string]string{"frames": raceSummary(rep)})
 		}
 	}
 	o.Logf("sched passA ops=%d goroutines=%d races=%d", len(order), k, nRaces)
@@ -785,9 +898,12 @@ func execSched(t *testing.T, pl Plan, seed uint64, o *Outcome) {
 		g, i := gi[0], gi[1]
 		name := p.Ops[g][i]
 		before := priv.snapshot()
-		fB := schedOp(priv, name)
+		var fB func() string
+		resB := safely(func() string { fB = schedOp(priv, name); return "" })
 		after := priv.snapshot()
-		resB := fB()
+		if fB != nil {
+			resB = safely(fB)
+		}
 		o.Eval("C20")
 		if before != after {
 			o.Violate("C20", "token-mutated", fmt.Sprintf("read-only operation %s changed a token: %s", name, firstDiff(before, after)), map[string]string{"op": strings.SplitN(name, ":", 3)[1]})
@@ -796,9 +912,22 @@ func execSched(t *testing.T, pl Plan, seed uint64, o *Outcome) {
 		if err != nil {
 			continue
 		}
-		resSolo := schedOp(solo, name)()
+		resSolo := safeOp(solo, name)
 		resA := results[g][i]
-		if resA != resSolo || resB != resSolo {
+		opKind := strings.SplitN(name, ":", 3)[1]
+		if strings.HasPrefix(opKind, "Decode") {
+			o.Eval("C06")
+			o.Sig("C06", "concurrent-decoders", opKind, resSolo)
+			for _, res := range []string{resA, resB, resSolo} {
+				if strings.HasPrefix(res, "ACCEPTED-UNSIGNED-CONTENT") {
+					o.Violate("C06", "forged-content-accepted", fmt.Sprintf("%s returned a token whose content its issuer never signed: %s", name, res), map[string]string{"mutation": "same-length rewrite under the old signature, decoders side by side"})
+					break
+				}
+			}
+		}
+		if strings.HasPrefix(resSolo, "PANIC") {
+			o.Violate("C20", "panic-in-read-only-operation", fmt.Sprintf("operation %s alone on a fresh token: %s", name, resSolo), map[string]string{"op": opKind})
+		} else if resA != resSolo || resB != resSolo {
 			o.Violate("C20", "result-differs", fmt.Sprintf("operation %s: concurrent=%.60q sequential=%.60q alone=%.60q", name, resA, resB, resSolo), map[string]string{"op": strings.SplitN(name, ":", 3)[1]})
 		}
 		o.Logf("op g%d %s -> %016x", g, name, fnv64(resSolo))
@@ -938,6 +1067,14 @@ func genSched(r *Rand, g GenCfg) Plan {
 		"ArgsIter", "ArgsString", "ArgsToIPLD", "ArgsGetNode", "ArgsEquals", "ArgsClone", "ArgsCloneMutate", "MetaCloneMutate", "ExecutionAllowedHookAdd", "MetaIter", "MetaString", "MetaGet", "MetaGetEncrypted", "MetaEquals", "MetaClone",
 		"StoreGet", "StoreIter", "ContainerWrite"}
 	dlgOps := []string{"ToSealed", "ToSealedWriter", "ToDagJson", "Encode", "Accessors", "Derived", "Derived", "IsValid", "MetaIter", "MetaString", "MetaGet", "MetaEquals", "MetaClone", "MetaCloneMutate", "PolicyString", "PolicyMatch", "PolicyMatchAlt", "PolicyMatchAlt", "StoreGet"}
+	decodeOps := []string{"DecodeSealed", "DecodeForged", "DecodeTyped", "DecodeForgedTyped", "DecodeDagCbor", "DecodeForgedDagCbor", "DecodeContainer"}
+	if g.Focus == "C06" {
+		// decoders only, honest and forged bytes of the same token side by side
+		invOps, dlgOps = decodeOps, decodeOps
+	} else {
+		invOps = append(invOps, "DecodeSealed", "DecodeForged", "DecodeContainer")
+		dlgOps = append(dlgOps, "DecodeSealed", "DecodeForged", "DecodeTyped")
+	}
 	k := r.Range(2, 4)
 	p.Ops = make([][]string, k)
 	for g := 0; g < k; g++ {
@@ -983,7 +1120,7 @@ func genSched(r *Rand, g GenCfg) Plan {
 func init() {
 	register(&ScenarioDef{
 		Name:  "sched",
-		Props: []string{"C20"},
+		Props: []string{"C20", "C06"},
 		Gen:   genSched,
 		Exec:  execSched,
 		Fresh: true,
